@@ -476,3 +476,7 @@ package skiplist
 //@ inv Jq-queues: forall a1, a2 *AccessBarrier {a1.freeq, a2.freeq} :: a1.isab && a2.isab && a1 != a2 ==> a1.freeq != a2.freeq
 //@ rely g-seqno: forall b *BarrierSession {b.seqno} :: old(b.valid) && old(b.fl) ==> b.seqno == old(b.seqno)
 //@ inv K-responsibility: forall ab *AccessBarrier {ab.pend} :: ab.isab ==> ab.pend >= 0 && (ab.isDestructorRunning == 0 || ab.isDestructorRunning == 1) && (cleanable(ab) ==> ab.isDestructorRunning == 1 || ab.pend > 0)
+
+//@ func verifYield
+//@ trusted test-only scheduling hook (no-op without the verif tag; with it, calls a test-installed function that only blocks)
+//@ pure-call
